@@ -99,6 +99,7 @@ type ipamMon struct {
 	createdOK map[string]bool // interfaces whose create call returned the id to the controller
 	delFailed map[string]bool // ... whose delete call failed
 	writeLost map[string]bool // ... that no stored record named when a write of the Node record failed by injection
+	everBound map[string]bool // "ip|ns/name": the record has bound the address to a pod of that name at some point
 	cl        client.Client
 }
 
@@ -218,8 +219,24 @@ func (m *ipamMon) observeNodeCR(before, after *v1beta1.Node) {
 						}
 					}
 				}
+				if m.everBound == nil {
+					m.everBound = map[string]bool{}
+				}
+				m.everBound[ip+"|"+v.PodID] = true
 				if old == nil || old.PodID != v.PodID {
 					m.newBind++
+					// an address a running pod reports and the record never bound to it (take-over) belongs to that
+					// pod: binding it to anybody else leaves the reporter without it for good
+					for _, q := range m.pods {
+						rep := q.RepV4
+						if fam == "v6" {
+							rep = q.RepV6
+						}
+						if rep != ip || "ns/"+q.Name == v.PodID || !q.Exists || q.Exited || q.Skip != "" || m.drifted[ip] || m.everBound[ip+"|ns/"+q.Name] {
+							continue
+						}
+						m.violate("C02", "C02.reported-address-given-away", fam, fmt.Sprintf("address %s, which the running pod %s reports and the record never bound to it, was bound to %s", ip, q.Name, v.PodID))
+					}
 					m.ev("bind %s -> %s (%s on %s, ip status %s, eni status %s)", v.PodID, ip, fam, id, v.Status, e.Status)
 					if v.Status != v1beta1.IPStatusValid {
 						m.violate("C02", "C02.bind-invalid-address", "ip-status="+string(v.Status), fmt.Sprintf("address %s was bound to %s while its status is %s", ip, v.PodID, v.Status))
@@ -590,7 +607,7 @@ func genIpamCfg(rng *rand.Rand) ipamCfg {
 	capac := (cfg.Adapters - 1) * cfg.V4Per
 	cfg.MinPool = rng.Intn(capac/3 + 1)
 	cfg.MaxPool = cfg.MinPool + rng.Intn(capac/2+2)
-	cfg.Initial = []string{"empty", "empty", "enis", "takeover", "takeover", "partial", "partial", "deleting-eni", "shrink"}[rng.Intn(9)]
+	cfg.Initial = []string{"empty", "empty", "enis", "takeover", "takeover", "partial", "partial", "deleting-eni", "shrink", "inflight-eni"}[rng.Intn(10)]
 	if cfg.Initial == "shrink" {
 		cfg.MinPool, cfg.MaxPool = 0, rng.Intn(2)
 	}
@@ -811,6 +828,12 @@ func (h *ipamHist) initialRecord() {
 			if k == nEni-1 {
 				ni.Status = "Deleting"
 			}
+		case "inflight-eni":
+			// the previous controller stopped between the cloud call and the status write: the record still shows
+			// the interface on its way (the cloud has finished attaching it)
+			if k == nEni-1 {
+				ni.Status = []string{"Attaching", "Detaching"}[h.rng.Intn(2)]
+			}
 		}
 		cr.Status.NetworkInterfaces[e.ID] = ni
 	}
@@ -819,6 +842,16 @@ func (h *ipamHist) initialRecord() {
 		h.c.R.Inconclusive("cannot write the initial record: " + err.Error())
 	}
 	h.mon.lastCR = cr.DeepCopy()
+	h.mon.everBound = map[string]bool{}
+	for _, e := range cr.Status.NetworkInterfaces {
+		for _, set := range []map[string]*v1beta1.IP{e.IPv4, e.IPv6} {
+			for ip, v := range set {
+				if v.PodID != "" {
+					h.mon.everBound[ip+"|"+v.PodID] = true
+				}
+			}
+		}
+	}
 }
 
 // afterInitial runs once the observers are installed: the upgraded control plane's first reconcile is judged too.
@@ -827,7 +860,19 @@ func (h *ipamHist) afterInitial() {
 	switch cfg.Initial {
 	case "takeover", "partial", "shrink":
 		// the upgraded control plane reconciles once (filling in the pods' UIDs), the restarted agent is
-		// re-asked for every running sandbox (kubelet replays ADD), so that both sides know the pods
+		// re-asked for every running sandbox (kubelet replays ADD), so that both sides know the pods.
+		// Half of the time fresh pods are already waiting: they compete, in that first reconcile, for the very
+		// addresses the running pods report.
+		if h.rng.Intn(2) == 0 {
+			h.mon.mu.Lock()
+			n := len(h.mon.pods)
+			h.mon.mu.Unlock()
+			for i := 0; i < 1+h.rng.Intn(2) && n+i < cfg.Pods; i++ {
+				fp := h.newPod(n+i, false)
+				h.writePod(fp)
+				h.mon.note("pod %s created before the first reconcile", fp.Name)
+			}
+		}
 		_, _ = h.reconcile()
 		h.mon.mu.Lock()
 		var run []*ipamPod
